@@ -18,7 +18,29 @@ use crate::val::Ty;
 
 pub struct C09;
 
-pub const ZONES: &[&str] = &["UTC", "Europe/Stockholm", "America/Sao_Paulo", "Australia/Lord_Howe", "Pacific/Apia", "America/St_Johns", "Asia/Kathmandu"];
+pub const ZONES: &[&str] = &["UTC", "Europe/Stockholm", "America/Sao_Paulo", "Australia/Lord_Howe", "Pacific/Apia", "America/St_Johns", "Asia/Kathmandu", "America/New_York", "America/Havana", "Asia/Beirut", "Africa/Cairo", "America/Santiago"];
+
+/// a walk through one calendar year in one zone: the 1st and another day of every month at the times of day where
+/// daylight-saving transitions sit (local times that are missing or exist twice there, also as intermediate results of
+/// truncations: `date_trunc('month', <15th 01:30>)` passes through <1st 01:30>)
+fn calendar_walk_lines(rng: &mut Rng, year: i64) -> Vec<String> {
+    let mut lines = Vec::new();
+    for month in 1..=12 {
+        for day in [1, 1 + rng.below(28) as i64] {
+            for (h, mi) in [(0, 0), (0, 30), (1, 30), (2, 30), (23, 30)] {
+                lines.push(format!("{{\"k\":\"a\",\"i\":{},\"ts\":\"{:04}-{:02}-{:02} {:02}:{:02}:00\",\"iv\":\"{}:30:00\"}}", month, year, month, day, h, mi, rng.below(48)));
+            }
+        }
+    }
+    lines
+}
+const WALK_STATEMENTS: &[&str] = &[
+    "SELECT date_trunc ( 'day' , ts ) , date_trunc ( 'month' , ts ) , date_trunc ( 'year' , ts ) , date_trunc ( 'hour' , ts ) FROM t",
+    "SELECT ts + iv , ts - iv , ( ts + iv ) - ts , EXTRACT ( hour FROM ts + iv ) , EXTRACT ( epoch FROM ts ) FROM t",
+    "SELECT ( ts :: text ) :: timestamp , ts :: text , greatest ( ts , ts + iv ) FROM t",
+    "SELECT make_timestamp ( EXTRACT ( year FROM ts ) , i , 1 , EXTRACT ( hour FROM ts ) , EXTRACT ( minute FROM ts ) , 0 , 0 ) FROM t",
+    "SELECT date_trunc ( 'month' , ts ) , MIN ( ts ) , MAX ( ts + iv ) , COUNT ( DISTINCT date_trunc ( 'day' , ts ) ) FROM t GROUP BY date_trunc ( 'month' , ts )",
+];
 /// local times inside DST gaps / overlaps of the zones above (and ordinary ones)
 const GAP_TIMES: &[&str] = &["2021-03-28 02:30:00", "2021-10-31 02:30:00", "2018-11-04 00:30:00", "2018-02-17 23:30:00", "2021-10-03 02:15:00", "2021-04-04 01:45:00", "2011-12-30 12:00:00", "2021-03-14 02:30:00", "1986-01-01 00:07:00", "2021-06-01 12:00:00"];
 
@@ -78,6 +100,12 @@ impl Monitor for C09 {
 
     fn generate(&self, rng: &mut Rng, tier: Tier) -> J {
         let format = *rng.pick(&["text", "json", "csv"]);
+        if (tier == Tier::Thorough && rng.chance(1, 120)) || (tier == Tier::Quick && rng.chance(1, 300)) {
+            let year = rng.range(1990, 2037);
+            let lines = calendar_walk_lines(rng, year);
+            let inner = json!({"kind": "hostile", "tables": hostile_real_table(), "stmt": *rng.pick(WALK_STATEMENTS), "files": [[lines.join("\n"), "\n"]], "format": format});
+            return json!({"kind": "tz", "zone": *rng.pick(ZONES), "inner": inner});
+        }
         if tier == Tier::Thorough && rng.chance(1, 60) {
             let lines: Vec<String> = (0..6).map(|_| hostile_real_line(rng)).collect();
             let inner = json!({"kind": "hostile", "tables": hostile_real_table(), "stmt": *rng.pick(HOSTILE_STATEMENTS), "files": [[lines.join("\n"), "\n"]], "format": format});
